@@ -40,10 +40,16 @@ JOBS = {'quick': 8}
 
 
 def ncases(tier):
-    return N[tier]
+    return N[tier] + len(FMTS)
 
 
 def gen(rng, idx, tier, seed):
+    if idx >= N[tier]:
+        # the sample file bundled with the library (4 rows x 5 columns)
+        fmt = FMTS[idx - N[tier]]
+        return {'sample': True, 'fmt': fmt, 'ny': 4, 'nx': 5, 'nt': 2,
+                'sdate': 2002154, 'shour': 0, 'dhour': 1,
+                'name': 'AVERAGE'}
     spec = refcamx.gen_spec(rng, FMTS[idx % len(FMTS)])
     if spec['fmt'] == 'uamiv':
         # the property names gridded average and emissions files
@@ -96,9 +102,15 @@ def run(spec, res):
     if 'hdr_nz' in spec:
         facets.append('header-nz-0')
     with harness.casedir() as d:
-        path = os.path.join(d, 'img.' + fmt)
-        with open(path, 'wb') as fh:
-            fh.write(refcamx.encode(spec))
+        if spec.get('sample'):
+            from PseudoNetCDF.testcase import camxfiles_paths
+            path = camxfiles_paths['vertical_diffusivity' if fmt == 'one3d'
+                                   else fmt]
+            facets.append('sample')
+        else:
+            path = os.path.join(d, 'img.' + fmt)
+            with open(path, 'wb') as fh:
+                fh.write(refcamx.encode(spec))
         sm, dm, vm, cm = read_all(fmt, path, spec, 'Memmap', res)
         res.hook('memmap.return')
         sr, dr, vr, cr = read_all(fmt, path, spec, 'Read', res)
